@@ -78,6 +78,12 @@ def gen_expr(rnd, depth, scope, allow_shadow):
 
 
 FIXED = [
+    # predicates whose value is truthy but not True (any number, e.g. 3): only truth matters, also when the `where` is
+    # the last thing its rule / alternative / class evaluates
+    r'/[ab]*/ where `len`',
+    r'(/[ab]*/ where `len`) | /\d+/',
+    r'let x = W in Opt(/[ab]*/ where `len`)',
+    r'[N where `lambda v: v % 2`, Opt(W where `len`)]',
     r'(let x = D in ["a", `x`]) | (let x = /\d\d/ in ["b", `x`])',
     r'(let n = N in "a"{n})*',
     r'let x = W in [":" , W where `lambda v: v == x`]',
@@ -120,7 +126,7 @@ CLASS_FIXED = [
     ('class T { n: N; xs: "a"{n}; requires `len(xs) == n` }', 'T', False),
     ('class T { let n: N; xs: (let n = N in "a"{n}); m: `n` }', 'T', True),
 ]
-TEXTS = [''.join(p) for L in range(0, 4) for p in itertools.product('12ab', repeat=L)] + \
+TEXTS = [''.join(p) for L in range(0, 4) for p in itertools.product('12ab', repeat=L)] + ['aaa', 'aab1', 'abab', '3aaa', '1aaa', 'aaaaa'] + \
         ['2:ab', '2:a', '1:ab', '12b', '1a', 'ab:ab', 'ab:abb', 'a:b', '2aa1a0', '1a2b', '1,2', '1a,2b,', '1a1a', '1a1a!',
          '1ab', '12a', '21b', '1a2', '2ab2', '2bb2', '2ab1', '123', 'aab', 'aaa', '1:a2:ab', '3:aba', '1a:a', '1a:b', '11',
          '23ab', '23aa', '12a', '13a', '2ab-1', '1ab1', '1a!1', '12!2', '12-!1', '21a', '22aa', '212aa', '1abab', '1aab', '2ab!ab']
